@@ -405,20 +405,85 @@ def py_type(t):
     raise ValueError(t)
 
 
-def py_input(st):
+DUNDER = {"OAdd": "__add__", "OSub": "__sub__", "OMul": "__mul__", "ODiv": "__truediv__", "OMod": "__mod__", "OPow": "__pow__",
+          "OLShift": "__lshift__", "ORShift": "__rshift__", "OLt": "__lt__", "OGt": "__gt__", "OLe": "__le__", "OGe": "__ge__",
+          "OEq": "__eq__", "ONe": "__ne__", "OAnd": "__and__", "OOr": "__or__", "OXor": "__xor__"}
+OPMOD = {"OAdd": "add", "OSub": "sub", "OMul": "mul", "ODiv": "truediv", "OMod": "mod", "OPow": "pow", "OLShift": "lshift",
+         "ORShift": "rshift", "OLt": "lt", "OGt": "gt", "OLe": "le", "OGe": "ge", "OEq": "eq", "ONe": "ne", "OAnd": "and_", "OOr": "or_", "OXor": "xor"}
+AUGMENTABLE = {"OAdd", "OSub", "OMul", "ODiv", "OMod", "OPow", "OLShift", "ORShift", "OAnd", "OOr", "OXor"}
+# other spellings of the same program (styles): every one must compile to the same MIR, source locations apart
+STYLES = ("dunder", "operator", "augmented", "inline-parties", "outputs-generator", "outputs-tuple", "helper-body", "aliases",
+          "keyword-constructors", "parenthesised", "lambda-wrapped")
+
+
+def py_party(name, style):
+    return f"Party(name={name!r})" if style == "inline-parties" else f"party_{name}"
+
+
+def py_input(st, style=None):
     def build(t):
         if t[0] == "s":
+            if style == "keyword-constructors":
+                doc = f"doc={st['doc']!r}, " if st["doc"] else ""
+                return f"{CLS[(t[1], t[2])]}(Input({doc}party={py_party(st['party'], style)}, name={st['name']!r}))"
             doc = f", doc={st['doc']!r}" if st["doc"] else ""
-            return f"{CLS[(t[1], t[2])]}(Input(name={st['name']!r}, party=party_{st['party']}{doc}))"
+            return f"{CLS[(t[1], t[2])]}(Input(name={st['name']!r}, party={py_party(st['party'], style)}{doc}))"
         return f"Array({build(t[1])}, size={t[2]})"
     return build(st["t"])
 
 
-def py_stmts(stmts, ind):
+def py_stmts(stmts, ind, style=None):
     L = []
     p = " " * ind
     for s in stmts:
         k = s["k"]
+        if style is not None:
+            n0 = len(L)
+            if k == "bin" and s["op"] in PYOP:
+                if style == "dunder":
+                    L.append(f"{p}{s['x']} = {s['a']}.{DUNDER[s['op']]}({s['b']})")
+                elif style == "operator":
+                    L.append(f"{p}{s['x']} = operator.{OPMOD[s['op']]}({s['a']}, {s['b']})")
+                elif style == "augmented" and s["op"] in AUGMENTABLE:
+                    L.append(f"{p}{s['x']} = {s['a']}")
+                    L.append(f"{p}{s['x']} {PYOP[s['op']]}= {s['b']}")
+                elif style == "parenthesised":
+                    L.append(f"{p}{s['x']} = (({s['a']}) {PYOP[s['op']]} ({s['b']}))")
+                elif style == "lambda-wrapped":
+                    L.append(f"{p}{s['x']} = (lambda: {s['a']} {PYOP[s['op']]} {s['b']})()")
+            elif k == "not" and style == "dunder":
+                L.append(f"{p}{s['x']} = {s['a']}.__invert__()")
+            elif k == "not" and style == "operator":
+                L.append(f"{p}{s['x']} = operator.invert({s['a']})")
+            elif k == "radd" and style == "dunder" and not (s["n"] == 0 and s.get("sum", True)):
+                L.append(f"{p}{s['x']} = {s['a']}.__radd__({s['n']})")
+            elif k == "input" and style in ("inline-parties", "keyword-constructors"):
+                L.append(f"{p}{s['x']} = {py_input(s, style)}")
+            elif k == "def":
+                ps = s["params"]
+                if s["form"] == "plain":
+                    L.append(f"{p}def {s['f']}({', '.join(f'{n}: {py_type(t)}' for n, t in ps)}) -> {py_type(s['ret'])}:")
+                    L += py_stmts(s["body"], ind + 4, style)
+                    L.append(f"{p}    return {s['res']}")
+                elif s["form"] == "decorator":
+                    L.append(f"{p}@nada_fn")
+                    L.append(f"{p}def {s['f']}({', '.join(f'{n}: {py_type(t)}' for n, t in ps)}) -> {py_type(s['ret'])}:")
+                    L += py_stmts(s["body"], ind + 4, style)
+                    L.append(f"{p}    return {s['res']}")
+                else:
+                    L.append(f"{p}def {s['f']}({', '.join(n for n, _ in ps)}):")
+                    L += py_stmts(s["body"], ind + 4, style)
+                    L.append(f"{p}    return {s['res']}")
+                    args_ty = "{" + ", ".join(f"{n!r}: {py_type(t)}" for n, t in ps) + "}"
+                    L.append(f"{p}{s['f']} = nada_fn({s['f']}, args_ty={args_ty}, return_ty={py_type(s['ret'])})")
+            if len(L) > n0:
+                if style == "aliases" and k != "def":
+                    pass
+                continue
+            if style == "aliases" and k != "def":
+                L += py_stmts([s], ind, None)
+                L.append(f"{p}{s['x']}_alias = {s['x']}")
+                continue
         if k == "lit":
             v = ("True" if s["v"] else "False") if s["b"] == "Bool" else str(s["v"])
             L.append(f"{p}{s['x']} = {CLS[('Const', s['b'])]}({v})")
@@ -500,14 +565,30 @@ def parties_of(stmts, acc):
     return acc
 
 
-def to_python(prog):
+def to_python(prog, style=None):
     ps = parties_of(prog["stmts"], set()) | {p for _, p, _ in prog["outs"]}
-    L = ["from nada_dsl import *", "", "", "def nada_main():"]
-    for p in sorted(ps):
-        L.append(f"    party_{p} = Party(name={p!r})")
-    L += py_stmts(prog["stmts"], 4)
-    outs = ", ".join(f"Output({v}, {n!r}, party_{p})" for n, p, v in prog["outs"])
-    L.append(f"    return [{outs}]")
+    L = ["from nada_dsl import *"] + (["import operator"] if style == "operator" else []) + ["", ""]
+    ind = 4
+    if style == "helper-body":
+        L += ["def build_everything():"]
+    else:
+        L += ["def nada_main():"]
+    if style != "inline-parties":
+        for p in sorted(ps):
+            L.append(f"    party_{p} = Party(name={p!r})")
+    L += py_stmts(prog["stmts"], ind, style)
+    if style == "keyword-constructors":
+        outs = ", ".join(f"Output(party=party_{p}, name={n!r}, child={v})" for n, p, v in prog["outs"])
+    else:
+        outs = ", ".join(f"Output({v}, {n!r}, {py_party(p, style)})" for n, p, v in prog["outs"])
+    if style == "outputs-generator":
+        L.append(f"    return (o_ for o_ in [{outs}])")
+    elif style == "outputs-tuple":
+        L.append(f"    return ({outs},)")
+    else:
+        L.append(f"    return [{outs}]")
+    if style == "helper-body":
+        L += ["", "", "def nada_main():", "    return build_everything()"]
     return "\n".join(L) + "\n"
 
 
